@@ -1050,6 +1050,7 @@ pub fn handle(st: &mut State, line: &str) -> String {
             "CL" => crate::client::run(st, &mut t),
             "TLS" => crate::net::tls_cell(st, &mut t),
             "TLSPLAIN" => crate::net::tls_plain(st, &mut t),
+            "TLSSNI" => crate::net::tls_sni(st, &mut t),
             "NETAGED" => crate::net::aged(st, &mut t),
             "TLSROT" => crate::net::tls_rotate(st, &mut t),
             "TLSHIST" => crate::net::tls_history(st, &mut t),
@@ -1198,6 +1199,26 @@ pub fn handle(st: &mut State, line: &str) -> String {
                     }
                 }
                 Ok(format!("NAMERACE rounds={} failures={} {}", rounds, failures, first))
+            }
+            // SMALLSTACK: the first values this process decodes and encodes are handled on a thread with a 160 KiB stack (a program
+            // that runs its connection handling on small threads): a four- or eight-octet value needs next to no stack
+            "SMALLSTACK" => {
+                let h = std::thread::Builder::new().stack_size(160 * 1024).spawn(|| {
+                    let mut good = true;
+                    let mut c = Cursor::new(vec![0xe3u8, 0xd1, 0x2a, 0x80]);
+                    good &= Time::decode_from(&mut c).is_ok();
+                    let mut c = Cursor::new(vec![0u8, 0, 0, 9, 0, 0, 0, 1]);
+                    good &= matches!(Unsigned64::decode_from(&mut c), Ok(v) if v.value() == 0x9_0000_0001);
+                    let mut c = Cursor::new(vec![0xffu8, 0xff, 0xff, 0xfe]);
+                    good &= matches!(Integer32::decode_from(&mut c), Ok(v) if v.value() == -2);
+                    let mut c = Cursor::new(vec![10u8, 1, 2, 3]);
+                    good &= IPv4::decode_from(&mut c).is_ok();
+                    let mut v = Vec::new();
+                    good &= Unsigned32::new(7).encode_to(&mut v).is_ok();
+                    good &= Float64::new(1.5).encode_to(&mut v).is_ok();
+                    good
+                }).map_err(|e| e.to_string())?;
+                Ok(match h.join() { Ok(true) => "OK".into(), Ok(false) => "SMALLSTACK wrong-value".into(), Err(_) => "SMALLSTACK panicked".into() })
             }
             "XM" => run_decode_multi(st, &mut t),
             // XP <dict> <k> <frame>: decode_from on a reader that already stands k octets PAST the end of what it holds
